@@ -11,7 +11,7 @@ LEVEL = "exploration"
 RULE = (
     "Hypothesis draws free profiles with independent Kx != Ky != Kz and oblique/turning winds (also closures and constants), "
     "non-square grids nx != ny with dx != dy, mode counts below/at/above/default, 1..2 levels, a source, an on-grid tower, "
-    "footprint or dispersion (measurement point at the origin or on a grid node), and scale factors s,a = 2^k (k in -27..27) or arbitrary in [1e-7,1e7]. Oracles: (1) x-mirror and "
+    "footprint or dispersion (measurement point at the origin or on a grid node), and scale factors s,a = 2^k (|k| up to 27, and up to 80 for lengths / 100 for velocities) or arbitrary in [1e-7,1e7]. Oracles: (1) x-mirror and "
     "(2) y-mirror of the problem (source mirrored about cell 0 on the periodic domain, that wind component negated, tower mirrored) "
     "give mirrored fields - compared on the Fourier components strictly inside the retained band |k| < min(modes, N)/2 (the property "
     "excepts Nyquist components); (3) transposed problem (source.T, (u,v),(Kx,Ky),(xmax,ymax),(nlx,nly), tower swapped) gives "
@@ -46,8 +46,12 @@ def _case(draw):
     case["bg"] = draw(st.sampled_from([0.0, 2.0]))
     pw = st.integers(-6, 6).map(lambda k: float(2.0**k))
     wide = st.integers(-27, 27).map(lambda k: float(2.0**k))  # several decades: 7e-9 .. 1e8
-    case["s"] = draw(st.one_of(pw, wide, gen.logfl(0.01, 100.0), gen.logfl(1e-7, 1e7)))
-    case["a"] = draw(st.one_of(pw, wide, gen.logfl(0.01, 100.0), gen.logfl(1e-7, 1e7)))
+    # powers of two scale every intermediate exactly, so the relations hold to rounding however large the factor:
+    # any absolute velocity / length scale hidden in the solve (a cut-off, a floor, an epsilon) shows up far out
+    huge_s = st.integers(28, 80).flatmap(lambda k: st.sampled_from([float(2.0**k), float(2.0**-k)]))
+    huge_a = st.integers(28, 100).flatmap(lambda k: st.sampled_from([float(2.0**k), float(2.0**-k)]))
+    case["s"] = draw(st.one_of(pw, wide, huge_s, gen.logfl(0.01, 100.0), gen.logfl(1e-7, 1e7)))
+    case["a"] = draw(st.one_of(pw, wide, huge_a, gen.logfl(0.01, 100.0), gen.logfl(1e-7, 1e7)))
     case["recentre"] = draw(st.booleans())  # dispersion runs re-centred on the (on-grid) tower
     return case
 
